@@ -92,9 +92,16 @@ static int get_fp(const char *s, fp_t *x)
     memcpy(x, l, sizeof(l));
     return 0;
 }
+static int enc_mode = 0; /* op prefixed "E:" => field elements are printed through the library's fp_encode */
 static void put_fp(const fp_t *x)
 {
     uint64_t l[NW];
+    if (enc_mode) {
+        uint8_t buf[FP_ENCODED_BYTES];
+        fp_encode(buf, x);
+        print_bytes_le(buf, FP_ENCODED_BYTES);
+        return;
+    }
     memcpy(l, x, sizeof(l));
     print_limbs(l, NW);
 }
@@ -117,6 +124,8 @@ int main(void)
         int na = 0;
         char *op = strtok(line, " \t\r\n");
         if (!op) { printf("R bad-op\n"); continue; }
+        enc_mode = 0;
+        if (op[0] == 'E' && op[1] == ':') { enc_mode = 1; op += 2; }
         char *als = strtok(NULL, " \t\r\n");
         int al = als ? atoi(als) : 0;
         char *t;
